@@ -85,6 +85,16 @@ def s_identity(ip, st, fr, name, args, c, site):
     return one(args[0])
 
 
+@S('std::option::Option::<&T>::copied', 'std::option::Option::<&T>::cloned', 'std::option::Option::<&mut T>::copied', 'std::option::Option::<&mut T>::cloned')
+def s_option_copied(ip, st, fr, name, args, c, site):
+    # Option<&T> -> Option<T>: the same alternative, the payload read through the reference (symbolic payloads are
+    # already read through: a reference to a symbolic object and the object are the same term)
+    v = args[0]
+    if isinstance(v, X.Adt) and v.variant == 'Some' and v.xs and isinstance(v.xs[0], X.Ref):
+        return one(X.Adt(v.path, v.variant, v.vidx, [ip.load(st, v.xs[0].cell, v.xs[0].path)], v.is_enum))
+    return one(v)
+
+
 @S('std::boxed::Box::<T, A>::leak')
 def s_leak(ip, st, fr, name, args, c, site):
     v = args[0]
